@@ -285,6 +285,14 @@ template <typename T, typename U, int NN> void mixed()
   U s = gen<U>(5);
   { auto r = a * s; CHECK_COMP("mixed_mul_vs", r, (R)((R)get(a, i) * (R)s), ab + " " + show(s)) }
   { auto r = s + a; CHECK_COMP("mixed_add_sv", r, (R)((R)s + (R)get(a, i)), ab + " " + show(s)) }
+  // compound assignment with a different element / scalar type: the scalar compound assignment per component
+  { V r = a; r *= s; CHECK_COMP("mixed_mul_assign_s", r, ([&] { T t = get(a, i); t *= s; return t; }()), ab + " " + show(s)) }
+  { V r = a; r += s; CHECK_COMP("mixed_add_assign_s", r, ([&] { T t = get(a, i); t += s; return t; }()), ab + " " + show(s)) }
+  { V r = a; r -= s; CHECK_COMP("mixed_sub_assign_s", r, ([&] { T t = get(a, i); t -= s; return t; }()), ab + " " + show(s)) }
+  { V r = a; r /= s; CHECK_COMP("mixed_div_assign_s", r, ([&] { T t = get(a, i); t /= s; return t; }()), ab + " " + show(s)) }
+  { V r = a; r += b; CHECK_COMP("mixed_add_assign", r, ([&] { T t = get(a, i); t += get(b, i); return t; }()), ab) }
+  { V r = a; r *= b; CHECK_COMP("mixed_mul_assign", r, ([&] { T t = get(a, i); t *= get(b, i); return t; }()), ab) }
+  { V r = a; r /= b; CHECK_COMP("mixed_div_assign", r, ([&] { T t = get(a, i); t /= get(b, i); return t; }()), ab) }
   { W c(a); CHECK_COMP("convert", c, (U)get(a, i), showv(a)) }
   { W c = static_cast<W>(a); CHECK_COMP("static_cast", c, (U)get(a, i), showv(a)) }
 }
@@ -321,7 +329,7 @@ int main(int argc, char **argv)
     shapes<int32_t>(); shapes<uint64_t>(); shapes<int64_t>(); shapes<float>(); shapes<double>();
     modfamily<uint8_t>(); modfamily<int16_t>(); modfamily<int32_t>(); modfamily<uint32_t>(); modfamily<int64_t>(); modfamily<uint64_t>();
     mixed<int, float, 3>(); mixed<float, double, 2>(); mixed<uint8_t, int, 4>(); mixed<int16_t, int64_t, 3>();
-    mixed<float, int, 4>(); mixed<uint32_t, float, 2>(); mixed<double, float, 3>();
+    mixed<float, int, 4>(); mixed<uint32_t, float, 2>(); mixed<double, float, 3>(); mixed<int8_t, int, 3>(); mixed<int, double, 2>();
     {
       using T = float; using V = vec3f;
       vec3f a = genv<vec3f>(0), b = genv<vec3f>(2), c = genv<vec3f>(5);
